@@ -995,6 +995,33 @@ example : (gridChain AsdfLib.observed [("a.pkl".toList, none), ("b.dat".toList, 
     ⟨.polar, .separated [⟨"f8", [2], [0, 1]⟩, ⟨"f8", [3], [0, 1, 3]⟩], .arr ⟨"f8", [], [2]⟩⟩).map
       (fun g => (g.weights.isNpScalar, g.system, g.coords.size)) = .ok (false, .polar, 6) := by decide +kernel
 
+/-- A chain of grid files succeeds exactly when a format is found at every hop. -/
+theorem grid_file_chain_succeeds_iff (lib : AsdfLib) (hl : AsdfFaithful lib) (hops : List Hop) (g : Grid)
+    (h : g.Ok) :
+    (gridChain lib hops g).toBool = true ↔ ∀ hop ∈ hops, (formatOf hop.1 hop.2).toBool = true := by
+  induction hops generalizing g with
+  | nil => simp [gridChain, Except.toBool]
+  | cons hop r ih =>
+    obtain ⟨n, f⟩ := hop
+    have hrt := grid_file_roundtrip lib hl n f g h
+    simp only [gridChain, bind, Except.bind, List.forall_mem_cons]
+    cases hw : writeGridFile lib n f g with
+    | error e =>
+      have : (formatOf n f).toBool = false := by
+        cases hf : (formatOf n f).toBool with
+        | false => rfl
+        | true => have := hrt.1.2 hf; rw [hw] at this; cases this
+      constructor
+      · intro hc; cases hc
+      · intro hc; rw [hc.1] at this; cases this
+    | ok c =>
+      obtain ⟨k, hk, hread⟩ := hrt.2 c hw
+      have hfmt : (formatOf n f).toBool = true := by rw [hk]; rfl
+      simp only [hread, hfmt, true_and]
+      by_cases hp : k = .pickle
+      · simp only [hp, if_true]; exact ih g h
+      · simp only [hp, if_false]; exact ih g.pyWeights h
+
 /-- **Chains of files for fields**, any length, any mixture of formats, any memory layout of the
 data at each hop. -/
 theorem field_file_chain (lib : AsdfLib) (hl : AsdfFaithful lib) (hops : List (Layout × Hop))
@@ -1037,6 +1064,52 @@ theorem field_file_chain (lib : AsdfLib) (hl : AsdfFaithful lib) (hops : List (L
         · exact Or.inr rfl
         · right; simp [pyWeights_idem]
       · simpa [hk] using hx
+
+/-- **Chains of files for dense mode bases**, any length, any mixture of formats.  (Sparse bases go
+through the same `basisChain` in the driver and the harness; for them the single-hop theorem
+`basis_file_roundtrip_sparse` is what is proved — the FITS image path re-sparsifies, and carrying its
+shape invariant along a chain is not done.) -/
+theorem basis_file_chain_dense (lib : AsdfLib) (hl : AsdfFaithful lib) (hops : List Hop)
+    (b b' : ModeBasis) (a : Arr) (g : Grid) (ts : List Nat) (m : Nat)
+    (htm : b.tm = .dense a) (hg : b.grid = some g) (h : g.Ok) (hnd : 0 < g.coords.ndim)
+    (hshape : a.shape = ts ++ [g.coords.size, m]) (hdata : a.data.length = prod a.shape)
+    (hc : basisChain lib hops b = .ok b') :
+    b' = b ∨ b' = { b with grid := some g.pyWeights } := by
+  suffices H : ∀ (hops : List Hop) (x : ModeBasis),
+      (x = b ∨ x = { b with grid := some g.pyWeights }) →
+      basisChain lib hops x = .ok b' → b' = b ∨ b' = { b with grid := some g.pyWeights } from
+    H hops b (Or.inl rfl) hc
+  intro hops
+  induction hops with
+  | nil =>
+    intro x hx hc
+    simp only [basisChain] at hc
+    injection hc with hc
+    exact hc ▸ hx
+  | cons hop r ih =>
+    intro x hx hch
+    obtain ⟨n, fm⟩ := hop
+    simp only [basisChain, bind, Except.bind] at hch
+    cases hw : writeBasisFile lib n fm x with
+    | error e => rw [hw] at hch; cases hch
+    | ok c =>
+      rw [hw] at hch
+      rcases hx with rfl | rfl
+      · obtain ⟨k, _, hread⟩ :=
+          basis_file_roundtrip_dense lib hl n fm x a g ts m htm hg h hnd hshape hdata c hw
+        simp only [hread] at hch
+        refine ih _ ?_ hch
+        by_cases hk : k = .asdf
+        · simp [hk]
+        · simp [hk]
+      · obtain ⟨k, _, hread⟩ :=
+          basis_file_roundtrip_dense lib hl n fm { b with grid := some g.pyWeights } a g.pyWeights ts m
+            htm rfl h hnd hshape hdata c hw
+        simp only [hread] at hch
+        refine ih _ ?_ hch
+        by_cases hk : k = .asdf
+        · simp only [hk, if_true]; right; simp [pyWeights_idem]
+        · simp only [hk, if_false]; right; trivial
 
 /-! ## Old — the unrepaired read/write paths and their counterexamples
 
